@@ -374,16 +374,45 @@ def show(F, n, depth=0):
     return "<%s>" % k
 
 
-_GEN = re.compile(r"::<[^<>]*(?:<[^<>]*(?:<[^<>]*>[^<>]*)*>[^<>]*)*>")
-
-
 def strip_generics(p):
-    """Remove `::<...>` groups and `<...>` argument lists from a def path."""
-    prev = None
-    while prev != p:
-        prev = p
-        p = _GEN.sub("", p)
-    return p
+    """Remove generic argument lists (`::<...>` and `Type<...>`) from a def path, keeping
+    `<T as Trait>` qualifiers (whose inner paths are stripped too)."""
+    out = []
+    i = 0
+    n = len(p)
+    while i < n:
+        c = p[i]
+        if c == "<":
+            prev = out[-1] if out else ""
+            is_args = prev.isalnum() or prev == "_" or (len(out) >= 2 and out[-1] == ":" and out[-2] == ":")
+            # find the matching '>'
+            depth = 0
+            j = i
+            while j < n:
+                if p[j] == "<":
+                    depth += 1
+                elif p[j] == ">" and not (j > 0 and p[j - 1] == "-"):
+                    depth -= 1
+                    if depth == 0:
+                        break
+                j += 1
+            if p[i + 1:i + 6] == "impl ":
+                out.append(p[i:j + 1])
+                i = j + 1
+                continue
+            if is_args:
+                if len(out) >= 2 and out[-1] == ":" and out[-2] == ":":
+                    out.pop()
+                    out.pop()
+                i = j + 1
+                continue
+            inner = strip_generics(p[i + 1:j])
+            out.append("<" + inner + ">")
+            i = j + 1
+            continue
+        out.append(c)
+        i += 1
+    return "".join(out)
 
 
 def short_path(p):
